@@ -456,7 +456,7 @@ class ScaledInteger(HasUnit, DataType):
     def validate(self, value, previous=None):
         # convert
         result = self(value)
-        if self.min - self.scale < value < self.max + self.scale:
+        if self.min - self.scale <= value <= self.max + self.scale:
             # silently clamp when outside by not more than self.scale
             return clamp(self(self.min), result, self(self.max))
         raise RangeError(f'{value:.14g} must be between between {self.min:g} and {self.max:g}')
